@@ -1,5 +1,5 @@
 #!/bin/bash
-# tools/corpus.sh [seed]  -- runs every mutant, reverted fix and seeded change against the quick check of its target
+# tools/corpus.sh [seed]  (CORPUS_ONLY=<regex> restricts it to matching names) -- runs every mutant, reverted fix and seeded change against the quick check of its target
 # property (patch applied to /repo, undone afterwards) and prints the ones that are NOT caught.
 SEED=${1:-0}; export VERIF_SEED=$SEED
 cd /verif
@@ -7,6 +7,7 @@ EQUIV="c07_disc_twice c12_resume_always c15_ping_full"
 miss=0; total=0
 run() { # name patch ids
   local name=$1 patch=$2 ids=$3
+  if [ -n "${CORPUS_ONLY:-}" ] && ! echo "$name" | grep -Eq "$CORPUS_ONLY"; then return; fi
   git -C /repo apply "$PWD/$patch" || { echo "$name: patch does not apply"; return; }
   local caught=""
   for id in $ids; do
@@ -35,5 +36,5 @@ run revert_fix_F9 mutants/revert_fix_F9.diff C17
 run revert_fix_F10 mutants/revert_fix_F10.diff C12   # reverts F11 and F10 together (F11 alone makes F10's flag redundant)
 run revert_fix_F11 mutants/revert_fix_F11.diff C12
 run revert_fix_F12 mutants/revert_fix_F12.diff C10   # stale-gossip panics F3d-f (quick) and the silent divergence F12 (thorough)
-for d in seeded/C* seeded/r[0-9]-C*; do [ -f $d/patch.diff ] || continue; n=$(basename $d); id=${n##*-}; ids=$id; [ "$n" = "r4-C17" ] && ids="C17 C09"; [ "$n" = "r5-C10" ] && ids="C10 C17"; run seed-$n $d/patch.diff "$ids"; done
+for d in seeded/C* seeded/r[0-9]-C*; do [ -f $d/patch.diff ] || continue; n=$(basename $d); id=${n##*-}; ids=$id; [ "$n" = "r4-C17" ] && ids="C17 C09"; [ "$n" = "r5-C10" ] && ids="C10 C17"; [ "$n" = "r6-C03" ] && ids="C06"; [ "$n" = "r7-C02" ] && ids="C02 C07"; [ "$n" = "r7-C03" ] && ids="C03 C10"; run seed-$n $d/patch.diff "$ids"; done
 echo "corpus: $total changes, $miss missed (seed $SEED)"
